@@ -10,19 +10,23 @@ package errors
 //@ func ValidationError(cause) (err)
 //@   property C18
 //@   option nosafety
+//@   modifies nothing
 //@   ensures @neverNil err != nil
 
 //@ func AuthorizationModelNotFound(modelID) (err)
 //@   property C18
 //@   option nosafety
+//@   modifies nothing
 //@   ensures @neverNil err != nil
 
 //@ func HandleError(public, e) (err)
 //@   property C18
 //@   option nosafety
+//@   modifies nothing
 //@   ensures @neverNil err != nil
 
 //@ func HandleTupleValidateError(e) (err)
 //@   property C18
 //@   option nosafety
+//@   modifies nothing
 //@   ensures @neverNil err != nil
